@@ -11,6 +11,7 @@ import Fir.Model.Resizer
 import Fir.Generated.Alpha
 import Fir.Props.C06
 import Fir.Proofs.AlphaLemmas
+import Fir.Proofs.AlphaImageLemmas
 
 namespace Fir.C07
 open Fir Fir.Gen
@@ -81,5 +82,56 @@ theorem opaque_div_id16 (c : Nat) (hc : c < 65536) : div_and_clip16 c (recip_alp
   have e2 : (c * 65535 + 65535 - 1) / 65535 = c := by omega
   rw [e1, e2] at h
   omega
+
+/-! ### whole images of the executable model -/
+
+/-- dividing: every colour component of a pixel whose alpha is 0 becomes 0 (8 / 16 bit) -/
+theorem divPixels_zero_alpha (p : PixT) (hk : p.kind = .u8 ∨ p.kind = .u16) (hn : 2 ≤ p.n) (px : Array Int)
+    (q c : Nat) (hq : q * p.n + (p.n - 1) < px.size) (hc : c < p.n - 1)
+    (ha : px[q * p.n + (p.n - 1)]! = 0) :
+    (divPixels p px)[q * p.n + c]! = 0 :=
+  Fir.Proofs.divPixels_zero_alpha p hk hn px q c hq hc ha
+
+/-- C07, second clause, on the model's alpha-aware convolution: a destination pixel whose resampled alpha
+    is zero has zero colour (alpha is the last of the `p.n` components; `q` is a pixel index) -/
+theorem resampleConvolution_zero_alpha_zero_colour (p : PixT) (hk : p.kind = .u8 ∨ p.kind = .u16) (hn : 2 ≤ p.n)
+    (hsup : Gen.alphaSupported.contains p.name = true)
+    (src prev : Img) (cl ct cw ch : Float) (f : FilterSpec) (adaptive : Bool) (q c : Nat) (hc : c < p.n - 1)
+    (hq : q * p.n + (p.n - 1) < (resampleConvolution p src cl ct cw ch prev f adaptive true).data.size)
+    (ha : (resampleConvolution p src cl ct cw ch prev f adaptive true).data[q * p.n + (p.n - 1)]! = 0) :
+    (resampleConvolution p src cl ct cw ch prev f adaptive true).data[q * p.n + c]! = 0 :=
+  Fir.Proofs.resampleConvolution_zero_alpha_zero_colour p hk hn hsup src prev cl ct cw ch f adaptive q c hc hq ha
+
+/-- premultiplying a fully opaque image changes nothing (8 / 16 bit, components in range) -/
+theorem mulPixels_opaque (p : PixT) (hk : p.kind = .u8 ∨ p.kind = .u16) (hn : 1 ≤ p.n) (px : Array Int)
+    (hrange : ∀ i, i < px.size → 0 ≤ px[i]! ∧ px[i]! ≤ p.kind.maxVal)
+    (hopaque : ∀ i, i < px.size → i % p.n = p.n - 1 → px[i]! = p.kind.maxVal)
+    (hwhole : px.size % p.n = 0) :
+    mulPixels p px = px :=
+  Fir.Proofs.mulPixels_opaque p hk hn px hrange hopaque hwhole
+
+/-- dividing a fully opaque image changes nothing -/
+theorem divPixels_opaque (p : PixT) (hk : p.kind = .u8 ∨ p.kind = .u16) (hn : 1 ≤ p.n) (px : Array Int)
+    (hrange : ∀ i, i < px.size → 0 ≤ px[i]! ∧ px[i]! ≤ p.kind.maxVal)
+    (hopaque : ∀ i, i < px.size → i % p.n = p.n - 1 → px[i]! = p.kind.maxVal)
+    (hwhole : px.size % p.n = 0) :
+    divPixels p px = px :=
+  Fir.Proofs.divPixels_opaque p hk hn px hrange hopaque hwhole
+
+/-- C07, third clause: for a fully opaque source whose convolved alpha channel is again fully opaque (C10:
+    a constant channel stays constant) and whose convolved components are in range, alpha handling is a no-op -/
+theorem resampleConvolution_opaque_noop (p : PixT) (hk : p.kind = .u8 ∨ p.kind = .u16) (hn : 1 ≤ p.n)
+    (src prev : Img) (cl ct cw ch : Float) (f : FilterSpec) (adaptive : Bool)
+    (hsrc_range : ∀ i, i < src.data.size → 0 ≤ src.data[i]! ∧ src.data[i]! ≤ p.kind.maxVal)
+    (hsrc_opaque : ∀ i, i < src.data.size → i % p.n = p.n - 1 → src.data[i]! = p.kind.maxVal)
+    (hsrc_whole : src.data.size % p.n = 0)
+    (hres_range : ∀ i, i < (doConvolution p src cl ct cw ch prev f adaptive).data.size →
+        0 ≤ (doConvolution p src cl ct cw ch prev f adaptive).data[i]! ∧ (doConvolution p src cl ct cw ch prev f adaptive).data[i]! ≤ p.kind.maxVal)
+    (hres_opaque : ∀ i, i < (doConvolution p src cl ct cw ch prev f adaptive).data.size → i % p.n = p.n - 1 →
+        (doConvolution p src cl ct cw ch prev f adaptive).data[i]! = p.kind.maxVal)
+    (hres_whole : (doConvolution p src cl ct cw ch prev f adaptive).data.size % p.n = 0) :
+    resampleConvolution p src cl ct cw ch prev f adaptive true = resampleConvolution p src cl ct cw ch prev f adaptive false :=
+  Fir.Proofs.resampleConvolution_opaque_noop p hk hn src prev cl ct cw ch f adaptive hsrc_range hsrc_opaque hsrc_whole hres_range hres_opaque hres_whole
+
 
 end Fir.C07
